@@ -94,14 +94,58 @@ func VerifyDSWithWork(
 	return verifyDSWithWork(keyMap, parentDSSet, work)
 }
 
+// VerifyDSAnchoredWithWork is VerifyDSWithWork for the caller that is about
+// to validate the zone's own DNSKEY RRset: besides the verdict it returns
+// every DNSKEY of keyMap that a supported DS of parentDSSet authenticates.
+//
+// RFC 4035 §5.2: the apex DNSKEY RRset is authenticated only by a
+// signature made with a key the parent's DS vouches for. Accepting a
+// signature from any key *inside* the RRset lets whoever controls the
+// response append a key of their own next to the genuine (public) KSK,
+// sign the RRset with it, and have every record they then sign validate.
+// The anchored subset is what the DNSKEY RRset's signature is checked
+// against; once that RRset is authenticated all of its keys may sign
+// zone data.
+//
+// The verdict is the one VerifyDSWithWork gives. The walk does not stop at
+// the first match — during a KSK roll two DS records authenticate two
+// keys and either may be the one that signed — so it performs at most one
+// digest per (supported DS, usable candidate) pair, all of them charged
+// to work.
+func VerifyDSAnchoredWithWork(
+	keyMap map[uint16][]*dns.DNSKEY,
+	parentDSSet []dns.RR,
+	work DSDigestWork,
+) (map[uint16][]*dns.DNSKEY, bool, error) {
+	anchored := make(map[uint16][]*dns.DNSKEY)
+	unsupportedOnly, err := verifyDS(keyMap, parentDSSet, work, anchored)
+	if err != nil {
+		return nil, unsupportedOnly, err
+	}
+	return anchored, unsupportedOnly, nil
+}
+
 func verifyDSWithWork(
 	keyMap map[uint16][]*dns.DNSKEY,
 	parentDSSet []dns.RR,
 	work DSDigestWork,
 ) (bool, error) {
+	return verifyDS(keyMap, parentDSSet, work, nil)
+}
+
+// verifyDS is the shared walk. With anchored == nil it returns at the first
+// DS that authenticates a key; otherwise it visits every supported DS and
+// records each key one of them authenticates.
+func verifyDS(
+	keyMap map[uint16][]*dns.DNSKEY,
+	parentDSSet []dns.RR,
+	work DSDigestWork,
+	anchored map[uint16][]*dns.DNSKEY,
+) (bool, error) {
 	dsRecords := uniqueSortedDSRecords(parentDSSet)
 	total := len(dsRecords)
 	supported := 0
+	anyMatched := false
 	var lastErr error
 	for _, parentDS := range dsRecords {
 		if !IsSupportedDS(parentDS) {
@@ -153,13 +197,25 @@ func verifyDSWithWork(
 			candidateUsed++
 			if ok {
 				matched = true
-				break
+				if anchored == nil {
+					break
+				}
+				if !containsDNSKEY(anchored[parentDS.KeyTag], ksk) {
+					anchored[parentDS.KeyTag] = append(anchored[parentDS.KeyTag], ksk)
+				}
+				continue
 			}
 			lastErr = ErrMismatchingDS
 		}
 		if matched {
-			return false, nil
+			if anchored == nil {
+				return false, nil
+			}
+			anyMatched = true
 		}
+	}
+	if anyMatched {
+		return false, nil
 	}
 
 	if total == 0 {
@@ -172,6 +228,15 @@ func verifyDSWithWork(
 		lastErr = ErrMissingKSK
 	}
 	return false, lastErr
+}
+
+func containsDNSKEY(keys []*dns.DNSKEY, key *dns.DNSKEY) bool {
+	for _, k := range keys {
+		if k == key {
+			return true
+		}
+	}
+	return false
 }
 
 type dnskeyIdentity struct {
